@@ -10,10 +10,13 @@ save carries a determinacy mark after the `m`):
       blocks were committed depends on goroutine timing, so from here on only status class and the
       content listings are comparable (the manifest text and the store are compared modulo block packing)
   m?  as m~, and a failure script is still active: not even the status is determined
+After the mark of a successful save comes 1/0: whether the text satisfies the Lean grammar predicate
+`ValidManifest9` (the plugin cross-checks it against its own, independently written, grammar check).
 -/
 import ArvVerif.Base.MD5
 import ArvVerif.Base.Loop
 import ArvVerif.Model.C09_FS
+import ArvVerif.Model.C09_Spec
 open ArvVerif ArvVerif.C09
 open ArvVerif.C08 (Seg FileNode Ptr Flush Store Node Err Op Res)
 
@@ -169,7 +172,10 @@ def saveStr (init : List Bytes) (flag : String) (s : FS9) (res : MRes) (calls fa
        | some l => listingStr l
        | none => "E")
     | _ => "x"
-  "m" ++ flag ++ ":" ++ status ++ ":" ++ toString calls ++ "." ++ toString fails ++ ":" ++ listingStr (listFS s) ++ ":" ++ rl ++ ":" ++ storeStr init s.world
+  let valid := match res with
+    | MRes.ok txt => if decide (ValidManifest9 txt) then "1" else "0"
+    | _ => ""
+  "m" ++ flag ++ valid ++ ":" ++ status ++ ":" ++ toString calls ++ "." ++ toString fails ++ ":" ++ listingStr (listFS s) ++ ":" ++ rl ++ ":" ++ storeStr init s.world
 
 def runOps (max : Nat) (init : List Bytes) : DState → List Op9 → List String → List String
   | _, [], acc => acc.reverse
